@@ -322,6 +322,25 @@ class CliSim(object):
         elif a["ok"] and not self.same_output(a, b):
             self.violate(step, "config_differs_output", {"a": case["a"], "b": case["b"], "configs": case["configs"],
                                                          "out_a": self.brief(a), "out_b": self.brief(b)})
+        elif step % 2 == 1 and self.spec.get("prop") == "C13":
+            # a caller that keeps one argument list and hands the same object to driver.run twice (after S68):
+            # reading --config must not change the caller's list, so the second call is the first one again
+            for name, text in case["configs"].items():
+                with open(name, "w") as f:
+                    f.write(text)
+            c1 = self.run_cmd(case["b"], reuse_list=True)
+            c2 = self.run_cmd(case["b"], reuse_list=True)
+            for name in case["configs"]:
+                if os.path.exists(name):
+                    os.remove(name)
+            self.stats["rel_config_same_list_twice"] += 1
+            self.emit({"i": step, "kind": "config-twice", "c1": self.odig(c1), "c2": self.odig(c2)})
+            for c in (c1, c2):
+                if c["ok"] != a["ok"] or (a["ok"] and not self.same_output(a, c)):
+                    self.violate(step, "config_differs_output", {"a": case["a"], "b": case["b"], "configs": case["configs"],
+                                                                 "sub": "same_argv_list_passed_twice",
+                                                                 "out_a": self.brief(a), "out_b": self.brief(c)})
+                    break
 
     def case_reject(self, step, case):
         for name, text in (case.get("configs") or {}).items():
